@@ -39,6 +39,10 @@ BASE = {
     "lumi-shapefactor": {"channels": [("c1", 2, [("sig", [("normfactor", "mu"), ("lumi", "lumi")]), ("bkg", [("shapefactor", "sf"), ("lumi", "lumi"), ("histosys", "h1")])])], "poi": "mu"},
     "mergeable": {"channels": [("c1", 2, [("sig", [("normfactor", "mu")]), ("b1", [("normsys", "n1"), ("histosys", "h1"), ("staterror", "st")]),
                                           ("b2", [("normsys", "n1"), ("histosys", "h1"), ("staterror", "st")])])], "poi": "mu", "tie": [("c1.b1.normsys.n1", "c1.b2.normsys.n1")]},
+    # the same with a second sample that declares no MC uncertainty (data-driven): merging must still change nothing
+    "mergeable-datadriven": {"channels": [("c1", 2, [("sig", [("normfactor", "mu")]), ("b1", [("normsys", "n1"), ("histosys", "h1"), ("staterror", "st")]),
+                                                     ("b2", [("normsys", "n1"), ("histosys", "h1"), ("staterror", "st")])])], "poi": "mu",
+                             "tie": [("c1.b1.normsys.n1", "c1.b2.normsys.n1")], "zeros": ["c1.b2.staterror.st.u0", "c1.b2.staterror.st.u1"]},
 }
 
 
@@ -176,7 +180,7 @@ def rw_rescale(spec, poi="mu"):
 
 REWRITES = {"reorder": rw_reorder, "rename": rw_rename, "zero": rw_zero, "noop": rw_noop, "split": rw_split, "merge": rw_merge, "rescale": rw_rescale}
 APPLICABLE = {"two-channels": ["reorder", "rename", "zero", "noop", "split", "rescale"], "lumi-shapefactor": ["reorder", "rename", "split", "rescale", "noop"],
-              "mergeable": ["merge", "reorder"]}
+              "mergeable": ["merge", "reorder"], "mergeable-datadriven": ["merge"]}
 
 
 def compose(f, g):
